@@ -200,26 +200,35 @@ class Replayer:
         self.seen = len(self.w.rec.events)
         self.tagmap = {}        # (ch, tag) -> ("event", mid) | ("reply", corr)
         self.drift = []
+        self.down = False
+        self.cut = False
 
     def bind(self, mid, cid):
         self.causal[mid] = cid
         self.rev[cid] = mid
 
-    def real_frame_ops(self, trig_mid):
+    def real_frame_ops(self, trig_mid, tcid=None, model=None):
         """operations of the frame just executed (events after self.seen), as comparable tuples;
         binds the causal ids of the messages it published"""
         ev = self.w.rec.events[self.seen:]
         self.seen = len(self.w.rec.events)
         out = []
         npub = 0
-        tcid = self.causal.get(trig_mid)
+        nev = 0
+        model_ids = None
+        if model is not None:
+            model_ids = [tuple(o["m"]["id"]) for o in model if o["op"] == "pub" and o["m"]["kind"] == "event"]
+        tcid = tcid or self.causal.get(trig_mid)      # (an orphan-scan frame has the model's trigger <<0>>)
         for e in ev:
             k = e["k"]
             if k == "frame" and e.get("cause") in ("deliver", "reply"):
                 self.tagmap[(e["ch"], e["tag"])] = ("event", e["mid"]) if e["cause"] == "deliver" else ("reply", e["corr"])
             elif k == "pub" and e.get("kind") == "event" and e["conn"].startswith("i"):
                 npub += 1
-                if tcid is not None:
+                nev += 1
+                if model_ids is not None and nev <= len(model_ids):
+                    self.bind(e["mid"], model_ids[nev - 1])       # the k-th event published = the model's k-th
+                elif tcid is not None:
                     self.bind(e["mid"], tcid + (npub,))
                 out.append(("pub", e.get("state", "")))
             elif k == "pub" and e.get("kind") == "rpc":
@@ -239,12 +248,25 @@ class Replayer:
                 out.append(("hist", e["event"].get("type")))
         return out
 
-    def step(self, label, target):
-        """take the real step corresponding to a model edge; returns False if it is not enabled"""
+    def step(self, label, target, crash_after=None, want_prefix=None):
+        """take the real step corresponding to a model edge; returns False if it is not enabled.
+        crash_after = j: the frame is cut short by a crash after its j-th broker operation (the model
+        crashed with operations of this frame still pending; want_prefix = the operations it had executed)"""
         w = self.w
         b = w.broker
         name = label.split("(")[0]
         if name == "DoOp":
+            return True
+        if name == "Crash":
+            if not self.down:
+                w.crash("i0")
+                self.down = True
+                self.seen = len(w.rec.events)
+            return True
+        if name == "Restart":
+            w.restart("i0")
+            self.down = False
+            self.seen = len(w.rec.events)
             return True
         if name.startswith("Worker"):
             fn = re.search(r'"([^"]*)"', label).group(1)
@@ -277,7 +299,8 @@ class Replayer:
                 if step is None:
                     self.drift.append(("not-enabled", label, trig))
                     return False
-            w.do(step)
+            if not self._do(step, crash_after):
+                return True
         else:
             kind = cause
             cand = None
@@ -288,11 +311,31 @@ class Replayer:
             if cand is None:
                 self.drift.append(("not-enabled", "timer:" + kind, trig))
                 return False
-            w.do(cand)
-        real = self.real_frame_ops(mid)
-        want = model_ops(target.get("ops", []))
-        if real != want:
-            self.drift.append(("frame-ops", cause, trig, want, real))
+            if not self._do(cand, crash_after):
+                return True
+        real = self.real_frame_ops(mid, trig if mid is None and trig else None,
+                                   model=(target.get("ops", []) if crash_after is None else (want_prefix or [])))
+        if crash_after is None:
+            want = model_ops(target.get("ops", []))
+            if real != want:
+                self.drift.append(("frame-ops", cause, trig, want, real))
+        else:
+            # the frame was cut short: compare the broker operations (the store writes between the last broker
+            # operation and the crash are done in the real run, pending in the model)
+            want = [o for o in model_ops(want_prefix or []) if o[0] != "hist"]
+            got = [o for o in real if o[0] != "hist"]
+            if got != want:
+                self.drift.append(("cut-frame-ops", cause, trig, want, got))
+        return True
+
+    def _do(self, step, crash_after):
+        if crash_after is None:
+            self.w.do(step)
+            return True
+        did = self.w.crash_inside("i0", step, crash_after - 1)
+        if did:
+            self.down = True
+        self.cut = did
         return True
 
     def finish(self):
@@ -320,15 +363,34 @@ def replay_paths(scn, dot_path, max_paths=None):
     for path in paths:
         rp = Replayer(scn)
         ok = True
-        for (a, label, bnode) in path:
+        crashes = []
+        for i, (a, label, bnode) in enumerate(path):
             if bnode not in parsed:
                 parsed[bnode] = parse_state(nodes[bnode])
-            if not rp.step(label, parsed[bnode]):
+            crash_after, prefix = None, None
+            if label.startswith("Frame"):
+                # does the model crash before this frame's operations are all executed?
+                k = 0
+                j = i + 1
+                while j < len(path) and path[j][1].startswith("DoOp"):
+                    k += 1
+                    j += 1
+                total = parsed[bnode].get("ops", [])
+                if j < len(path) and path[j][1].startswith("Crash") and k < len(total):
+                    prefix = total[:k]
+                    crash_after = sum(1 for o in prefix if o["op"] in ("pub", "ack", "note"))
+                    crashes.append({"frame": len([1 for x in path[:i] if x[1].startswith("Frame")]), "op": crash_after})
+            elif label.startswith("Crash") and not rp.down:
+                crashes.append({"frame": len([1 for x in path[:i] if x[1].startswith("Frame")])})
+            if not rp.step(label, parsed[bnode], crash_after, prefix):
                 ok = False
                 break
+        if rp.down:
+            rp.w.restart("i0")
+            rp.down = False
         ev, notes = rp.finish()
         last = parsed.get(path[-1][2], {})
-        results.append({"events": ev, "notes": notes, "drift": rp.drift, "followed": ok, "length": len(path),
+        results.append({"events": ev, "notes": notes, "drift": rp.drift, "followed": ok, "length": len(path), "crashes": crashes,
                         "labels": [l.split("(")[0] for (_, l, _) in path]})
     return results, {"nodes": len(nodes), "edges": nedges, "paths": len(paths)}
 
